@@ -50,7 +50,95 @@ pub fn exec(func: &str, a: &mut Args) -> String {
             let mut s = format!("{}", out.len());
             for q in out.iter() { s.push(' '); s.push_str(&d2::fp(q)); }
             s }
+        // non-convex: `polygons_intersection_points` (points) and `polygons_intersection` (location stream).  The names
+        // `polygons_touching*` run the same code on the vertex-on-boundary families (oracle only, see relations.json).
+        "polygons_intersection_points" | "polygons_touching_points" => { let p1 = poly(a); let p2 = poly(a);
+            run_stable(|| nc_points(&p1, &p2)) }
+        "polygons_intersection" | "polygons_touching" => { let p1 = poly(a); let p2 = poly(a);
+            run_stable(|| nc_locs(&p1, &p2)) }
         _ => "nofn".into(),
+    }
+}
+
+// ---------------------------------------------------------------- non-convex polygon intersection
+
+/// one output item: a sort key (numbers compared lexicographically) and its printed form
+type Item = (Vec<f64>, String);
+
+fn cmp_key(a: &[f64], b: &[f64]) -> std::cmp::Ordering {
+    use std::cmp::Ordering::*;
+    for (x, y) in a.iter().zip(b.iter()) {
+        if x < y { return Less; }
+        if y < x { return Greater; }
+    }
+    a.len().cmp(&b.len())
+}
+fn cmp_seq(a: &[Item], b: &[Item]) -> std::cmp::Ordering {
+    use std::cmp::Ordering::*;
+    for (x, y) in a.iter().zip(b.iter()) {
+        match cmp_key(&x.0, &y.0) { Equal => {}, o => return o }
+    }
+    a.len().cmp(&b.len())
+}
+/// The iteration order of the hash map of `polygons_intersection` (hashbrown + foldhash, seeded per map from ASLR / stack
+/// addresses) decides which intersection starts a component and in which order the components are produced.  Canonical
+/// form: every component rotated to its lexicographically least rotation, components sorted.
+fn canonical(comps: Vec<Vec<Item>>) -> String {
+    let mut cs: Vec<Vec<Item>> = comps.into_iter().map(|c| {
+        let n = c.len();
+        let mut best: Vec<Item> = c.clone();
+        for k in 1..n {
+            let mut r = c.clone(); r.rotate_left(k);
+            if cmp_seq(&r, &best) == std::cmp::Ordering::Less { best = r; }
+        }
+        best
+    }).collect();
+    cs.sort_by(|a, b| cmp_seq(a, b));
+    let mut s = format!("ok {}", cs.len());
+    for c in cs.iter() { s.push_str(&format!(" {}", c.len())); for it in c.iter() { s.push(' '); s.push_str(&it.1); } }
+    s
+}
+/// call twice (two hash maps, two iteration orders): an output that depends on the order is reported as such
+fn run_stable<F: Fn() -> String>(f: F) -> String {
+    let a = f();
+    for _ in 0..2 { let b = f(); if a != b { return format!("unstable {} // {}", a, b); } }
+    a
+}
+fn nc_points(p1: &[P2], p2: &[P2]) -> String {
+    match crate::p2::transformation::polygons_intersection_points(p1, p2) {
+        Err(_) => "err".into(),
+        Ok(comps) => canonical(comps.iter().map(|c| c.iter().map(|q| (vec![q.x, q.y], d2::fp(q))).collect()).collect()),
+    }
+}
+/// `PolylinePointLocation` is not nameable from outside the crate (private module); its derived `Debug` output
+/// (`OnVertex(3)`, `OnEdge(1, 2, [0.25, 0.75])`, floats in shortest round-trip form) is parsed instead.
+fn parse_loc(dbg: &str) -> (Vec<f64>, String) {
+    if dbg.starts_with("OnVertex") {
+        let i: usize = dbg.trim_start_matches("OnVertex(").trim_end_matches(')').parse().expect("vertex index");
+        (vec![0.0, i as f64], format!("v{}", i))
+    } else {
+        let inner = dbg.trim_start_matches("OnEdge(").trim_end_matches(')');
+        let parts: Vec<&str> = inner.split(|c: char| c == ',' || c == '[' || c == ']' || c == ' ').filter(|t| !t.is_empty()).collect();
+        let i: usize = parts[0].parse().expect("edge i"); let j: usize = parts[1].parse().expect("edge j");
+        let u: f64 = parts[2].parse().expect("bcoord 0"); let v: f64 = parts[3].parse().expect("bcoord 1");
+        (vec![1.0, i as f64, j as f64, u, v], format!("e {} {} {} {}", i, j, ff(u), ff(v)))
+    }
+}
+fn nc_locs(p1: &[P2], p2: &[P2]) -> String {
+    let mut comps: Vec<Vec<Item>> = Vec::new();
+    let mut cur: Vec<Item> = Vec::new();
+    let r = crate::p2::transformation::polygons_intersection(p1, p2, |l1, l2| {
+        match (l1, l2) {
+            (Some(a), Some(b)) => { let (ka, sa) = parse_loc(&format!("{:?}", a)); let (kb, sb) = parse_loc(&format!("{:?}", b));
+                let mut k = vec![0.0]; k.extend(ka); k.extend(kb); cur.push((k, format!("b {} {}", sa, sb))); }
+            (Some(a), None) => { let (ka, sa) = parse_loc(&format!("{:?}", a)); let mut k = vec![1.0]; k.extend(ka); cur.push((k, format!("p {}", sa))); }
+            (None, Some(b)) => { let (kb, sb) = parse_loc(&format!("{:?}", b)); let mut k = vec![2.0]; k.extend(kb); cur.push((k, format!("q {}", sb))); }
+            (None, None) => { comps.push(std::mem::take(&mut cur)); }
+        }
+    });
+    match r {
+        Err(_) => "err".into(),
+        Ok(()) => { if !cur.is_empty() { comps.push(cur); } canonical(comps) }
     }
 }
 
@@ -171,7 +259,9 @@ fn gen_segments(r: &mut Rng, lat: bool) -> [P2; 4] {
     }
     match r.below(9) {
         0 | 1 | 2 => [a, b, pt(r, lat), pt(r, lat)],
-        3 => { let c = lerp(&a, &b, par(r, lat)); [a, b, c, pt(r, lat)] }              // T-junction / endpoint on the other line
+        3 => { // T-junction: an end point of one segment on the line of the other — all four kinds (c on ab, d on ab, a on cd, b on cd)
+               let c = lerp(&a, &b, par(r, lat)); let o = pt(r, lat);
+               match r.below(4) { 0 => [a, b, c, o], 1 => [a, b, o, c], 2 => [c, o, a, b], _ => [o, c, a, b] } }
         4 => { let c = lerp(&a, &b, par(r, lat)); let d = lerp(&a, &b, par(r, lat)); [a, b, c, d] } // collinear
         5 => { let o = pt(r, lat); let k = par(r, lat); let c = P2::new(o.x, o.y);                  // parallel
                let d = P2::new(o.x + (b.x - a.x) * k, o.y + (b.y - a.y) * k); [a, b, c, d] }
@@ -330,6 +420,8 @@ pub fn gen(r: &mut Rng, thorough: bool) -> Vec<(String, String)> {
             let (p1, p2) = gen_axis_edge_pair(r);
             v.push(("convex_axis_edge_pair".into(), format!("{} {}", hpoly(&p1), hpoly(&p2))));
         }
+        // non-convex ∩ non-convex (simple polygons)
+        if it % 4 < 2 { gen_nc(r, lat, &mut v, it % 32 == 4 || it % 32 == 5); }
     }
     v
 }
@@ -356,4 +448,216 @@ fn gen_convex_pair(r: &mut Rng, lat: bool) -> (Vec<P2>, Vec<P2>) {
         _ => { let w = if lat { 8.0 } else { 300.0 }; shift(&gen_convex(r, lat), w, 0.0) } // far apart
     };
     (p, respin(r, q))
+}
+
+// ---------------------------------------------------------------- non-convex generators (simple polygons, counter-clockwise)
+
+fn shoelace(p: &[P2]) -> f64 { let n = p.len(); (0..n).map(|i| { let j = (i + 1) % n; p[i].x * p[j].y - p[j].x * p[i].y }).sum() }
+fn make_ccw(mut p: Vec<P2>) -> Vec<P2> { if shoelace(&p) < 0.0 { p.reverse(); } p }
+fn shift(q: &[P2], dx: f64, dy: f64) -> Vec<P2> { q.iter().map(|v| P2::new(v.x + dx, v.y + dy)).collect() }
+/// exact quarter turns + mirror keep lattice coordinates exact
+fn quarter(q: &[P2], k: u64) -> Vec<P2> {
+    make_ccw(q.iter().map(|v| match k % 4 { 0 => P2::new(v.x, v.y), 1 => P2::new(-v.y, v.x), 2 => P2::new(-v.x, -v.y), _ => P2::new(v.y, -v.x) }).collect())
+}
+fn centroid(p: &[P2]) -> P2 { let n = p.len().max(1) as f64; P2::new(p.iter().map(|v| v.x).sum::<f64>() / n, p.iter().map(|v| v.y).sum::<f64>() / n) }
+fn snap(x: f64, lat: bool) -> f64 { if lat { (x * 4.0).round() / 4.0 } else { x } }
+
+/// star-shaped about `c`: strictly increasing angles, every gap below a half turn
+fn gen_star(r: &mut Rng, lat: bool) -> (Vec<P2>, P2) {
+    if lat {
+        let dirs: [(f64, f64); 16] = [(1.0, 0.0), (2.0, 1.0), (1.0, 1.0), (1.0, 2.0), (0.0, 1.0), (-1.0, 2.0), (-1.0, 1.0), (-2.0, 1.0),
+            (-1.0, 0.0), (-2.0, -1.0), (-1.0, -1.0), (-1.0, -2.0), (0.0, -1.0), (1.0, -2.0), (1.0, -1.0), (2.0, -1.0)];
+        let c = P2::new(r.lattice(8, 1), r.lattice(8, 1));
+        loop {
+            let pick: Vec<usize> = (0..16).filter(|_| r.below(3) != 0).collect();
+            if pick.len() < 3 { continue; }
+            // gap between consecutive picked directions must stay below 8 sixteenths of a turn
+            let ok = (0..pick.len()).all(|i| { let a = pick[i]; let b = pick[(i + 1) % pick.len()]; (b + 16 - a) % 16 < 8 && (pick.len() > 1) });
+            if !ok { continue; }
+            let v: Vec<P2> = pick.iter().map(|&d| { let k = (1 + r.below(8)) as f64 * 0.25; P2::new(c.x + dirs[d].0 * k, c.y + dirs[d].1 * k) }).collect();
+            return (v, c);
+        }
+    } else {
+        let n = 3 + r.below(9) as usize;
+        let c = P2::new(r.uniform(-10.0, 10.0), r.uniform(-10.0, 10.0));
+        let s = r.logu(0.1, 20.0);
+        loop {
+            let mut ang: Vec<f64> = (0..n).map(|_| r.uniform(0.0, 6.283185307179586)).collect();
+            ang.sort_by(|a, b| a.partial_cmp(b).unwrap());
+            let ok = (0..n).all(|i| { let g = if i + 1 < n { ang[i + 1] - ang[i] } else { ang[0] + 6.283185307179586 - ang[i] }; g > 0.05 && g < 3.0 });
+            if !ok { continue; }
+            let v: Vec<P2> = ang.iter().map(|t| { let k = s * r.uniform(0.3, 1.0); P2::new(c.x + k * t.cos(), c.y + k * t.sin()) }).collect();
+            return (v, c);
+        }
+    }
+}
+/// comb: a spine `[0, W] x [h, h + s]` with `teeth` teeth of width `w` hanging down to `y = 0` (tooth `t` spans
+/// `x in [t (w + g), t (w + g) + w]`); returns the polygon and `(w, g, h, s, teeth)`
+fn gen_comb(r: &mut Rng, lat: bool) -> (Vec<P2>, (f64, f64, f64, f64, usize)) {
+    let teeth = 2 + r.below(3) as usize;
+    let (w, g, h, s) = if lat { ((1 + r.below(2)) as f64 * 0.5, (1 + r.below(3)) as f64 * 0.5, (2 + r.below(3)) as f64 * 0.5, (1 + r.below(2)) as f64 * 0.5) }
+                       else { (r.uniform(0.3, 1.5), r.uniform(0.3, 1.5), r.uniform(1.0, 3.0), r.uniform(0.3, 1.0)) };
+    let mut v = Vec::new();
+    for t in 0..teeth {
+        let x0 = t as f64 * (w + g); let x1 = x0 + w;
+        v.push(P2::new(x0, 0.0)); v.push(P2::new(x1, 0.0));
+        if t + 1 < teeth { v.push(P2::new(x1, h)); v.push(P2::new(x1 + g, h)); }
+    }
+    let wtot = (teeth - 1) as f64 * (w + g) + w;
+    v.push(P2::new(wtot, h + s)); v.push(P2::new(0.0, h + s));
+    (v, (w, g, h, s, teeth))
+}
+/// a polygon that crosses every tooth of the comb: an axis slab, a slanted strip or a wedge
+fn gen_cutter(r: &mut Rng, lat: bool, c: (f64, f64, f64, f64, usize)) -> Vec<P2> {
+    let (w, g, h, _s, teeth) = c;
+    let wtot = (teeth - 1) as f64 * (w + g) + w;
+    let m = if lat { 0.25 * (1 + 2 * r.below(2)) as f64 } else { r.uniform(0.1, 0.9) };      // overhang on the sides
+    let (y0, y1) = if lat { let a = 0.25 * (1 + r.below(3)) as f64; (a - if r.below(3) == 0 { 0.75 } else { 0.0 }, a + 0.25 * (1 + r.below(2)) as f64) }
+                   else { let a = r.uniform(-0.5, 0.5) * h; (a, a + r.uniform(0.1, 0.6) * h) };
+    match r.below(4) {
+        0 | 1 => vec![P2::new(-m, y0), P2::new(wtot + m, y0), P2::new(wtot + m, y1), P2::new(-m, y1)],
+        2 => { let d = if lat { 0.125 } else { r.uniform(0.01, 0.2) * h };                        // slanted strip
+               vec![P2::new(-m, y0), P2::new(wtot + m, y0 + d), P2::new(wtot + m, y1 + d), P2::new(-m, y1)] }
+        _ => vec![P2::new(-m, y0.min(0.25 * h) - 0.5 * h), P2::new(wtot + m, y0), P2::new(wtot + m + m, y1)],   // wedge (triangle)
+    }
+}
+fn gen_simple(r: &mut Rng, lat: bool) -> Vec<P2> {
+    let p = match r.below(8) {
+        0 | 1 | 2 => gen_star(r, lat).0,
+        3 => { let (c, _) = gen_comb(r, lat); let k = r.below(4); quarter(&c, k) }
+        4 => make_ccw(gen_convex(r, lat)),
+        5 => { // the staple and the zig-zag of the reviewer's demo, scaled
+               let k = if lat { *r.pick(&[0.5, 1.0]) } else { r.uniform(0.3, 2.0) };
+               let base: &[(f64, f64)] = if r.bool() { &[(2.0, 1.0), (3.0, 1.0), (3.0, 3.0), (6.0, 3.0), (6.0, 1.0), (7.0, 1.0), (7.0, 4.0), (2.0, 4.0)] }
+                                         else { &[(2.0, 0.5), (4.0, 3.0), (6.0, 1.0), (8.0, 5.0), (1.0, 5.0)] };
+               base.iter().map(|q| P2::new(q.0 * k, q.1 * k)).collect() }
+        6 => { // L / U / T shapes on the half-integer grid
+               let k = if lat { 0.5 } else { r.uniform(0.3, 2.0) };
+               let base: &[(f64, f64)] = match r.below(3) {
+                   0 => &[(0.0, 0.0), (4.0, 0.0), (4.0, 1.0), (1.0, 1.0), (1.0, 4.0), (0.0, 4.0)],
+                   1 => &[(0.0, 0.0), (5.0, 0.0), (5.0, 4.0), (4.0, 4.0), (4.0, 1.0), (1.0, 1.0), (1.0, 4.0), (0.0, 4.0)],
+                   _ => &[(2.0, 0.0), (3.0, 0.0), (3.0, 3.0), (5.0, 3.0), (5.0, 4.0), (0.0, 4.0), (0.0, 3.0), (2.0, 3.0)] };
+               let q: Vec<P2> = base.iter().map(|q| P2::new(q.0 * k, q.1 * k)).collect(); let t = r.below(4); quarter(&q, t) }
+        _ => { let (a, b) = (pt(r, lat), pt(r, lat)); let c = pt(r, lat); make_ccw(vec![a, b, c]) }   // may be degenerate: is_simple() decides the protocol name
+    };
+    if p.len() < 3 { return vec![P2::new(0.0, 0.0), P2::new(1.0, 0.0), P2::new(0.0, 1.0)]; }
+    p
+}
+/// exact decision (lattice coordinates only) of "a vertex of one polygon lies on the boundary of the other"
+fn vob_exact(p1: &[P2], p2: &[P2]) -> Option<bool> {
+    let sc = 4096.0;
+    let conv = |p: &[P2]| -> Option<Vec<(i128, i128)>> { p.iter().map(|v| { let (x, y) = (v.x * sc, v.y * sc);
+        if x.fract() == 0.0 && y.fract() == 0.0 && x.abs() < 1e12 && y.abs() < 1e12 { Some((x as i128, y as i128)) } else { None } }).collect() };
+    let (a, b) = (conv(p1)?, conv(p2)?);
+    let on = |p: &[(i128, i128)], q: &[(i128, i128)]| p.iter().any(|v| (0..q.len()).any(|i| { let (s, t) = (q[i], q[(i + 1) % q.len()]);
+        (t.0 - s.0) * (v.1 - s.1) - (t.1 - s.1) * (v.0 - s.0) == 0 && s.0.min(t.0) <= v.0 && v.0 <= s.0.max(t.0) && s.1.min(t.1) <= v.1 && v.1 <= s.1.max(t.1) }));
+    Some(on(&a, &b) || on(&b, &a))
+}
+/// simplicity test in f64 (exact on lattice coordinates, where every cross product is exact): no zero-length edge, adjacent
+/// edges do not fold back, non-adjacent edges have no common point
+fn is_simple(p: &[P2]) -> bool {
+    let n = p.len();
+    if n < 3 { return false; }
+    let cr = |a: &P2, b: &P2, c: &P2| (b.x - a.x) * (c.y - a.y) - (b.y - a.y) * (c.x - a.x);
+    let on = |a: &P2, b: &P2, c: &P2| cr(a, b, c) == 0.0 && a.x.min(b.x) <= c.x && c.x <= a.x.max(b.x) && a.y.min(b.y) <= c.y && c.y <= a.y.max(b.y);
+    let meet = |a: &P2, b: &P2, c: &P2, d: &P2| {
+        let (d1, d2, d3, d4) = (cr(a, b, c), cr(a, b, d), cr(c, d, a), cr(c, d, b));
+        (((d1 > 0.0 && d2 < 0.0) || (d1 < 0.0 && d2 > 0.0)) && ((d3 > 0.0 && d4 < 0.0) || (d3 < 0.0 && d4 > 0.0)))
+            || on(a, b, c) || on(a, b, d) || on(c, d, a) || on(c, d, b) };
+    for i in 0..n {
+        let (a, b) = (&p[i], &p[(i + 1) % n]);
+        if a.x == b.x && a.y == b.y { return false; }
+        for j in (i + 1)..n {
+            let (c, d) = (&p[j], &p[(j + 1) % n]);
+            if j == i + 1 || (i == 0 && j == n - 1) {
+                // adjacent: share one vertex; must not be collinear and pointing back
+                let (u, v, w) = if j == i + 1 { (a, b, d) } else { (c, d, b) };
+                if cr(u, v, w) == 0.0 && (v.x - u.x) * (w.x - v.x) + (v.y - u.y) * (w.y - v.y) < 0.0 { return false; }
+            } else if meet(a, b, c, d) { return false; }
+        }
+    }
+    true
+}
+/// a pair of simple counter-clockwise polygons in a chosen relation; the flag says "touching by construction"
+fn gen_nc_pair(r: &mut Rng, lat: bool) -> (Vec<P2>, Vec<P2>, bool) {
+    let fam = r.below(24);
+    let (p, q, touching): (Vec<P2>, Vec<P2>, bool) = match fam {
+        0 | 1 | 2 | 3 | 16 | 17 | 18 => { // independent shapes brought over each other
+            let p = gen_simple(r, lat); let q = gen_simple(r, lat);
+            let (cp, cq) = (centroid(&p), centroid(&q));
+            let j = if lat { (r.lattice(6, 2), r.lattice(6, 2)) } else { (r.uniform(-1.0, 1.0), r.uniform(-1.0, 1.0)) };
+            let q = shift(&q, snap(cp.x - cq.x, lat) + j.0, snap(cp.y - cq.y, lat) + j.1);
+            (p, q, false) }
+        4 | 5 | 6 | 19 | 20 => { // one edge of the cutter crosses several teeth: several components
+            let (c, dims) = gen_comb(r, lat); let k = gen_cutter(r, lat, dims);
+            let t = r.below(4); let o = if lat { (r.lattice(4, 1), r.lattice(4, 1)) } else { (r.uniform(-5.0, 5.0), r.uniform(-5.0, 5.0)) };
+            // rotate both by the same quarter turn (the pair keeps its relation)
+            let both = |x: &[P2]| -> Vec<P2> { shift(&x.iter().map(|v| match t { 0 => P2::new(v.x, v.y), 1 => P2::new(-v.y, v.x), 2 => P2::new(-v.x, -v.y), _ => P2::new(v.y, -v.x) }).collect::<Vec<_>>(), o.0, o.1) };
+            (make_ccw(both(&c)), make_ccw(both(&k)), false) }
+        7 | 21 => { // two combs, one turned: a grid of components
+            let (c1, _) = gen_comb(r, lat); let (c2, _) = gen_comb(r, lat);
+            let c2 = quarter(&c2, 1 + 2 * r.below(2));
+            let (a, b) = (centroid(&c1), centroid(&c2));
+            let j = if lat { 0.125 } else { r.uniform(0.0, 0.1) };
+            (c1, shift(&c2, snap(a.x - b.x, lat) + j, snap(a.y - b.y, lat) + j), false) }
+        8 | 22 => { // nested: a scaled copy about the star centre (strictly inside)
+            let (p, c) = gen_star(r, lat); let k = *r.pick(&[0.5, 0.25, 0.75]);
+            let q: Vec<P2> = p.iter().map(|v| P2::new(c.x + (v.x - c.x) * k, c.y + (v.y - c.y) * k)).collect();
+            (p, q, false) }
+        9 | 23 => { // disjoint
+            let p = gen_simple(r, lat); let q = gen_simple(r, lat);
+            let w = if lat { 64.0 } else { 500.0 };
+            (p, shift(&q, w, if r.bool() { 0.0 } else { w }), false) }
+        10 => { let p = gen_simple(r, lat); (p.clone(), p, true) }                                   // identical
+        11 => { // shared vertex
+            let p = gen_simple(r, lat); let q = gen_simple(r, lat);
+            let a = p[r.below(p.len() as u64) as usize]; let b = q[r.below(q.len() as u64) as usize];
+            (p, shift(&q, a.x - b.x, a.y - b.y), true) }
+        12 => { // a vertex of q on the middle of an edge of p (from inside or outside, whatever the shapes give)
+            let p = gen_simple(r, lat); let q = gen_simple(r, lat);
+            let i = r.below(p.len() as u64) as usize; let a = lerp(&p[i], &p[(i + 1) % p.len()], 0.5); let b = q[r.below(q.len() as u64) as usize];
+            (p, shift(&q, a.x - b.x, a.y - b.y), true) }
+        13 => { // a triangle glued on an edge of p (shared edge), outside or inside
+            let p = gen_simple(r, lat); let i = r.below(p.len() as u64) as usize; let (a, b) = (p[i], p[(i + 1) % p.len()]);
+            let k = *r.pick(&[0.25, 0.5, 1.0]) * if r.bool() { 1.0 } else { -1.0 };
+            let n = P2::new((b.y - a.y) * k, -(b.x - a.x) * k);
+            (p.clone(), make_ccw(vec![a, b, P2::new((a.x + b.x) * 0.5 + n.x, (a.y + b.y) * 0.5 + n.y)]), true) }
+        14 => { // collinear partial overlap of two edges: slide a copy of an edge-glued triangle along the edge
+            let p = gen_simple(r, lat); let i = r.below(p.len() as u64) as usize; let (a, b) = (p[i], p[(i + 1) % p.len()]);
+            let t = *r.pick(&[0.25, 0.5, -0.25]); let k = if r.bool() { 0.5 } else { -0.5 };
+            let (a2, b2) = (lerp(&a, &b, t), lerp(&a, &b, t + 1.0));
+            let n = P2::new((b.y - a.y) * k, -(b.x - a.x) * k);
+            (p.clone(), make_ccw(vec![a2, b2, P2::new((a2.x + b2.x) * 0.5 + n.x, (a2.y + b2.y) * 0.5 + n.y)]), true) }
+        _ => { // a small triangle with one vertex on the boundary of a square, inside or outside (the reviewer's example)
+            let s = if lat { 4.0 } else { r.uniform(1.0, 8.0) };
+            let sq = vec![P2::new(0.0, 0.0), P2::new(s, 0.0), P2::new(s, s), P2::new(0.0, s)];
+            let x = s * *r.pick(&[0.25, 0.5, 0.75]); let d = if r.bool() { 1.0 } else { -1.0 };
+            let tri = make_ccw(vec![P2::new(x, 0.0), P2::new(x + s * 0.25, d * s * 0.5), P2::new(x - s * 0.25, d * s * 0.5)]);
+            let t = r.below(4); (quarter(&sq, t), quarter(&tri, t), true) }
+    };
+    let (p, q) = if r.bool() { (p, q) } else { (q, p) };
+    (p, q, touching)
+}
+fn rot_start(r: &mut Rng, mut p: Vec<P2>) -> Vec<P2> { if !p.is_empty() { let k = r.below(p.len() as u64) as usize; p.rotate_left(k); } p }
+
+/// the non-convex cases of one generator iteration
+fn gen_nc(r: &mut Rng, lat: bool, v: &mut Vec<(String, String)>, all_rotations: bool) {
+    let (p, q, touching) = gen_nc_pair(r, lat);
+    // the compared names are reserved for simple polygons in general position (where the output is a function of the input)
+    let touching = touching || vob_exact(&p, &q).unwrap_or(false) || !is_simple(&p) || !is_simple(&q);
+    let (n_pts, n_loc) = if touching { ("polygons_touching_points", "polygons_touching") } else { ("polygons_intersection_points", "polygons_intersection") };
+    let (p1, q1) = (rot_start(r, p.clone()), rot_start(r, q.clone()));
+    v.push((n_pts.into(), format!("{} {}", hpoly(&p1), hpoly(&q1))));
+    v.push((n_loc.into(), format!("{} {}", hpoly(&p1), hpoly(&q1))));
+    if all_rotations {
+        // every starting vertex of the first polygon against one of the second, and the other way round
+        for k in 1..p.len() { let mut pr = p.clone(); pr.rotate_left(k); v.push((n_pts.into(), format!("{} {}", hpoly(&pr), hpoly(&q)))); }
+        for k in 1..q.len() { let mut qr = q.clone(); qr.rotate_left(k); v.push((n_pts.into(), format!("{} {}", hpoly(&p), hpoly(&qr)))); }
+    }
+    if r.below(8) == 0 {
+        // clockwise input (outside the documented contract: correspondence only)
+        let (mut pr, mut qr) = (p.clone(), q.clone());
+        match r.below(3) { 0 => pr.reverse(), 1 => qr.reverse(), _ => { pr.reverse(); qr.reverse(); } }
+        v.push((n_pts.into(), format!("{} {}", hpoly(&pr), hpoly(&qr))));
+    }
 }
